@@ -59,6 +59,27 @@ def chain_pair_programs():
     return progs
 
 
+def capture_pair_programs(tier):
+    """every typed chain of length <= 2 whose operands are ALL block captures (C11's chain family), join! against join_spawn! and
+    spawn!: same value, same trace per branch, and every capture evaluated by the CALLING thread in both (a capture evaluated
+    inside a spawned thread sees another thread context: thread-locals, thread id)"""
+    from . import fam_captures
+
+    progs, _ = fam_captures.chain_programs(tier)
+    out = []
+    for p in progs:
+        if not p.id.endswith("/b2") or tier == "quick" and "/d1/" not in p.id and "/d3/" not in p.id and "/d4/" not in p.id:
+            continue
+        for other in ("join_spawn", "spawn"):
+            if other == "spawn" and ("/d0/" not in p.id or tier == "quick"):
+                continue
+            assert p.mac.startswith("let x = join! {")
+            ma = "tag_threads(true);\n" + p.mac.replace("\nformat!", "\ntag_threads(false);\nformat!", 1)
+            mb = ma.replace("let x = join! {", "let x = %s! {" % other, 1)
+            out.append(Prog("join=%s/%s" % (other, p.id), ma, mb, p.rows, "Proj", meta={"macro": other, "dsl": p.meta["dsl"].replace("join! {", other + "! {", 1), "ref": p.meta["dsl"]}))
+    return out
+
+
 # ---------------------------------------------------------------------------------------------
 # expansion text: alias == long name == E1 (join_impl called as a library), through rustc's own printer
 # ---------------------------------------------------------------------------------------------
